@@ -40,6 +40,11 @@ def run_translator(parts=('consts',)):
     if r.returncode != 0:
         raise Broken('translator', 'tools/gen.py failed', r.stdout[-3000:])
     out = r.stdout.strip()
+    # the dynamic layout's assertion list and parameter order: always (the driver is built against them)
+    r = sh([sys.executable, os.path.join(ROOT, 'tools', 'gen_asserts.py')])
+    if r.returncode != 0:
+        raise Broken('translator', 'tools/gen_asserts.py failed (check_asserts outside the translated shape?)', r.stdout[-3000:])
+    out += '\n' + r.stdout.strip()
     if 'ast' in parts:
         r = sh([sys.executable, os.path.join(ROOT, 'tools', 'gen_ast.py')])
         if r.returncode != 0:
@@ -52,6 +57,11 @@ def check_lean_printer():
     """the elaborated Generated/Layout/*.lean programs, printed back, must equal Generated/ast/*.txt byte for byte"""
     d = os.path.join(CACHE, 'dump')
     os.makedirs(d, exist_ok=True)
+    # DumpAst imports the compiled generated modules: make sure every one of them is built from what the translator wrote in THIS run
+    mods = [f'Swiftness.Generated.Layout.{f[:-5]}' for f in sorted(os.listdir(os.path.join(LEAN, 'Swiftness', 'Generated', 'Layout'))) if f.endswith('.lean')]
+    r = sh(['lake', 'build'] + mods + ['Driver.AstLoad'], cwd=LEAN, timeout=3000)
+    if r.returncode != 0:
+        raise Broken('translator', 'generated Lean modules do not build', r.stdout[-2000:])
     r = sh(['lake', 'env', 'lean', '--run', 'DumpAst.lean', d], cwd=LEAN, timeout=1800)
     if r.returncode != 0:
         raise Broken('translator', 'DumpAst.lean failed', r.stdout[-2000:])
